@@ -95,10 +95,34 @@ def gen_chain(rng):
     return lines + filler(rng, rng.choice([0, 2]))
 
 
+def gen_fill(rng):
+    """A data segment that ends exactly at the top of memory, or one or two cells before / after it, for either data
+    start, followed by a data label that the code uses (seed C08c: a data counter of exactly 0x10000 was let
+    through and the label there silently became 0)."""
+    start = rng.choice([0xC001, 0xC167])
+    d = rng.choice([-2, -1, 0, 0, 1, 2])
+    n = 0x10000 - start + d
+    lines = []
+    if rng.random() < 0.5:
+        lines += ["DLABEL(first)", "INTEGER(7)"]
+        n -= 1
+    if rng.random() < 0.3:
+        lines += ["CONSTANT(fill, %d)" % n, "DSKIP(fill)"]
+    else:
+        lines += ["DSKIP(%d)" % n]
+    lines += ["DLABEL(top)"]
+    if rng.random() < 0.3:
+        lines += ["INTEGER(9)"]
+    lines += ["SET(R1, top)", rng.choice(["LOAD(R2, 0, R1)", "STORE(R2, 0, R1)", "NOP()"]), "HALT()"]
+    return lines
+
+
 def gen_valid(rng, n_code=None):
     """A mostly valid program as a list of source lines."""
     if n_code is None and rng.random() < 0.08:
         return gen_far(rng)
+    if n_code is None and rng.random() < 0.05:
+        return gen_fill(rng)
     if n_code is None and rng.random() < 0.06:
         return gen_chain(rng)
     consts, dlabels, labels = [], [], []
@@ -176,7 +200,7 @@ def gen_valid(rng, n_code=None):
         elif k < 0.90:
             code.append("FSET4(%s)" % lit(rng, ival(rng, 0, 16)))
         elif k < 0.95:
-            code.append(rng.choice(['print_reg(%s)' % r(rng), 'print("hi")', 'println("a b")']))
+            code.append(rng.choice(['print_reg(%s)' % r(rng), 'print("hi")', 'println("a b")', '__eval("1")']))
         elif k < 0.98:
             code.append("OPCODE(%s)" % rng.choice(["0", "0x1234", "0xA123", "0x2200", "0x2300", "0x3D61", "0xFFFF", "65535"]))
         else:
